@@ -50,7 +50,7 @@ def _gen_reaction(rw, keys, maxcoef, p_inact, p_cat, eq):
             m = rw.randint(1, 2)
             reac[c] = reac.get(c, 0) + m
             prod[c] = prod.get(c, 0) + m
-        if not eq and rw.random() < p_inact:
+        if rw.random() < p_inact:
             c = rw.choice(keys)
             (ir if rw.random() < 0.5 else ip)[c] = rw.randint(1, 2)
         r = {"reac": reac, "prod": prod, "inact_reac": ir, "inact_prod": ip}
